@@ -14,6 +14,9 @@
 (*   clock   : integer time                                                  *)
 (*   store   : [has, assign, idleAt] last persisted (has = FALSE: no file)    *)
 (*   promHead: head series Prometheus itself reports                         *)
+(*   gen     : the <<job, h>> pairs of the static entries in the configuration   *)
+(*             file the injector generated for Prometheus (jobs the sidecar's    *)
+(*             configuration knows: KnownJobs)                                   *)
 (***************************************************************************)
 EXTENDS Integers, Sequences, FiniteSets, SequencesExt
 
@@ -26,8 +29,10 @@ ReqOf(a, h) == LET ks == {k \in DOMAIN a : a[k].h = h}
 NewStatus(x) == [state |-> x.state, health |-> "unknown", err |-> FALSE, times |-> 0,
                  series |-> x.series, total |-> x.total, win |-> <<>>]
 
+KnownJobs == {"j1", "j2"}
+GenOf(a) == {<<x.job, x.h>> : x \in {x \in Rng(a) : x.job \in KnownJobs}}
 Init0 == [assign |-> <<>>, status |-> [h \in {} |-> 0], idleAt |-> -1, clock |-> 0,
-          store |-> [has |-> FALSE, assign |-> <<>>, idleAt |-> -1], promHead |-> 0]
+          store |-> [has |-> FALSE, assign |-> <<>>, idleAt |-> -1], promHead |-> 0, gen |-> {}]
 
 IdleRule(status, idleAt, clock) ==
   IF DOMAIN status = {} THEN (IF idleAt = -1 THEN clock ELSE idleAt) ELSE -1
@@ -45,12 +50,13 @@ RebuildStatus(old, a) ==
 Update(w, a) ==
   LET st == RebuildStatus(w.status, a)
       ia == IdleRule(st, w.idleAt, w.clock)
-  IN [w EXCEPT !.assign = a, !.status = st, !.idleAt = ia, !.store = [has |-> TRUE, assign |-> a, idleAt |-> ia]]
+  IN [w EXCEPT !.assign = a, !.status = st, !.idleAt = ia, !.store = [has |-> TRUE, assign |-> a, idleAt |-> ia], !.gen = GenOf(a)]
 
 (* An update whose callbacks fail (the generated configuration can not be written, Prometheus  *)
 (* refuses the reload): the request is answered with an error and nothing is persisted, but the  *)
 (* bookkeeping in memory has already taken the request over - that is what the shard reports     *)
-(* from then on, and what a restart forgets.                                                      *)
+(* from then on, and what a restart forgets.  (The failing callback modelled here is the reload:  *)
+(* the configuration file has been written.)                                                      *)
 UpdateRejected(w, a) == [Update(w, a) EXCEPT !.store = w.store]
 
 (* Completion of one proxied scrape of hash h (A.11).  ok: the real scrape succeeded;     *)
@@ -78,7 +84,7 @@ Restart(w) ==
       ia0 == w.store.idleAt
       st == [h \in Hashes(a) |-> NewStatus(ReqOf(a, h))]
       ia == IdleRule(st, ia0, w.clock)
-  IN [w EXCEPT !.assign = a, !.status = st, !.idleAt = ia, !.store = [has |-> TRUE, assign |-> a, idleAt |-> ia]]
+  IN [w EXCEPT !.assign = a, !.status = st, !.idleAt = ia, !.store = [has |-> TRUE, assign |-> a, idleAt |-> ia], !.gen = GenOf(a)]
 
 Tick(w)       == [w EXCEPT !.clock = @ + 1]
 SetHead(w, n) == [w EXCEPT !.promHead = n]
@@ -103,5 +109,5 @@ Proj(w) ==
                    [h |-> ord[k], state |-> w.status[ord[k]].state, health |-> w.status[ord[k]].health,
                     err |-> w.status[ord[k]].err, times |-> w.status[ord[k]].times,
                     series |-> w.status[ord[k]].series, total |-> w.status[ord[k]].total]],
-   rt |-> RuntimeInfo(w)]
+   rt |-> RuntimeInfo(w), gen |-> w.gen]
 =============================================================================
